@@ -207,6 +207,10 @@ func (b *blob) Cache(offset int64, size int64, opts ...Option) error {
 		return fmt.Errorf("blob is already closed")
 	}
 
+	if size <= 0 {
+		return nil // nothing to cache; don't round an empty range up to the first chunk
+	}
+
 	var cacheOpts options
 	for _, o := range opts {
 		o(&cacheOpts)
